@@ -22,8 +22,13 @@ class FifoScn(Scenario):
                'mpservice.streamer._streamer']
 
     def __init__(self, N=2, concurrency=1, capacity=None, return_x=False, return_exceptions=False,
-                 fn_fail=True, src_fail=False, pre_fail=False, may_stop=False, observe=False, lazy_take=None):
+                 fn_fail=True, src_fail=False, pre_fail=False, may_stop=False, observe=False, lazy_take=None,
+                 odd_values=False):
         self.N, self.concurrency, self.capacity = N, concurrency, capacity
+        # odd_values: every element is a symbolic choice among values that code likes to confuse with 'nothing'
+        self.odd_values = odd_values
+        if odd_values:
+            fn_fail = src_fail = pre_fail = False
         self.return_x, self.return_exceptions = return_x, return_exceptions
         self.fn_fail, self.src_fail, self.pre_fail, self.may_stop = fn_fail, src_fail, pre_fail, may_stop
         self.observe = observe
@@ -32,11 +37,22 @@ class FifoScn(Scenario):
         self.params = dict(N=N, concurrency=concurrency, capacity=capacity, return_x=return_x,
                            return_exceptions=return_exceptions, fn_fail=fn_fail, src_fail=src_fail,
                            pre_fail=pre_fail, may_stop=may_stop, observe=observe, lazy_take=lazy_take)
+        if odd_values:
+            self.params['odd_values'] = True
         cap = capacity if capacity is not None else 2 * concurrency
         self.cap = cap
         self.caps = {'deque': N + 2, 'pool_jobs': N + 1, 'pool_workers': concurrency}
 
     # symbolic environment ------------------------------------------------------------------
+    ODD = (None, 0, False, '', ())
+
+    def value(self, i):
+        """The i-th input element."""
+        if not self.odd_values:
+            return ('x', i)
+        k = choose(f'val{i}', len(self.ODD) + 1)
+        return ('x', i) if k == 0 else self.ODD[k - 1]
+
     def fn_fails(self, i):
         return self.fn_fail and choose(f'fnfail{i}', 2) == 1
 
@@ -63,11 +79,13 @@ class FifoScn(Scenario):
                     raise SrcError('src', i)
                 if obs:
                     pulled.inc()
-                yield ('x', i)
+                yield scn.value(i)
             if scn.src_fails(N):
                 raise SrcError('src', N)
 
         def fn(x, **kw):
+            if scn.odd_values:
+                return ('y', x)
             i = x[1]
             if obs:
                 running.inc()
@@ -125,6 +143,15 @@ class FifoScn(Scenario):
     def judge(self, out, err, stopped):
         N = self.N
         k = len(out)
+        if self.odd_values:
+            want = [((self.value(i), ('y', self.value(i))) if self.return_x else ('y', self.value(i))) for i in range(N)]
+            if stopped:
+                want = want[:k]
+            # values are compared with their types: 0, False and '' are different elements
+            same = len(out) == len(want) and all(repr(a) == repr(b) for a, b in zip(out, want))
+            if err is not None or not same:
+                return f'outputs {out!r} (error {err!r}) for inputs {[self.value(i) for i in range(N)]!r}: expected {want!r}'
+            return None
         for i in range(k):
             if self.src_fails(i):
                 return f'output {i} delivered although the source failed at {i}: {out}'
